@@ -261,12 +261,46 @@ theorem updateUser_no_panic (cmd : List Bytes) (u : User) : updateUser cmd u ≠
   | true => simp
   | false =>
     simp only [Bool.false_eq_true, if_false]
+    repeat' apply ite_ne_panic
+    any_goals (intro h; cases h)
     have := updateToks_no_panic cmd u hc
     cases hu : updateToks cmd u with
     | ok u1 => simp
     | err m => simp
     | unmod => simp
     | panic => exact absurd hu this
+
+/-- what UpdateUser answers `ok` on went through the token loop and the tail loops -/
+theorem updateUser_ok_inv (cmd : List Bytes) (u u1 : User) (h : updateUser cmd u = .ok u1) :
+    ∃ u2, updateToks cmd u = .ok u2 ∧ u1 = updateTail cmd u2 := by
+  unfold updateUser at h
+  split at h
+  · cases h
+  split at h
+  · cases h
+  split at h
+  · cases h
+  split at h
+  · cases h
+  split at h
+  · cases h
+  cases ht : updateToks cmd u with
+  | ok u2 =>
+    rw [ht] at h
+    simp only [TokRes.ok.injEq] at h
+    exact ⟨u2, rfl, h.symm⟩
+  | err m => rw [ht] at h; cases h
+  | panic => rw [ht] at h; cases h
+  | unmod => rw [ht] at h; cases h
+
+/-- a pattern that does not compile makes UpdateUser answer the error, whatever else the rule list holds
+    (no empty token, tokens and patterns inside the modelled alphabet) -/
+theorem updateUser_malformed (cmd : List Bytes) (u : User) (h0 : cmd.contains [] = false)
+    (h1 : (cmd.any fun t => !isAscii t) = false) (h2 : ((rulePatterns cmd).any fun p => !PubSub.okBytes p) = false)
+    (h3 : ((rulePatterns cmd).any fun p => !PubSub.compiles p) = true) :
+    updateUser cmd u = .err PubSub.invalidPattern := by
+  unfold updateUser
+  simp only [h0, h1, h2, h3, Bool.false_eq_true, if_false, if_true]
 
 /-- SetUser panics only on the empty vector (cmd[0]) -/
 theorem setUser_no_panic (a : AclState) (name : Bytes) (rest : List Bytes) : (setUser a (name :: rest)).2 ≠ .panic := by
@@ -299,18 +333,9 @@ theorem setUser_off_disables (a : AclState) (name : Bytes) (rules : List Bytes) 
   cases hu : updateUser (name :: (rules ++ [b "off"])) (a.get uid) with
   | ok u1 =>
     simp only [AclState.get, NMap.get_put_same, Option.getD_some]
-    unfold updateUser at hu
-    split at hu
-    · cases hu
-    · cases ht : updateToks (name :: (rules ++ [b "off"])) (a.get uid) with
-      | ok u2 =>
-        rw [ht] at hu
-        simp only [TokRes.ok.injEq] at hu
-        rw [← hu, updateTail_enabled]
-        exact updateToks_append_off (name :: rules) (a.get uid) u2 ht
-      | err m => rw [ht] at hu; cases hu
-      | panic => rw [ht] at hu; cases hu
-      | unmod => rw [ht] at hu; cases hu
+    obtain ⟨u2, ht, he⟩ := updateUser_ok_inv _ _ _ hu
+    rw [he, updateTail_enabled]
+    exact updateToks_append_off (name :: rules) (a.get uid) u2 ht
   | err m => rw [hu] at hok; cases hok
   | panic => rw [hu] at hok; cases hok
   | unmod => rw [hu] at hok; cases hok
